@@ -17,7 +17,7 @@ SPEC = {
         # the composition C01 + C02 + C06 (SemaModel/Compose, notes/Compose.md): end-to-end statements about the shard API
         "Sema.Compose.Compose_step", "Sema.Compose.Compose_inv_history", "Sema.Compose.Compose_insert_fresh",
         "Sema.Compose.Compose_rejected_noop", "Sema.Compose.Compose_filter_state", "Sema.Compose.Compose_filter_exact",
-        "Sema.Compose.Compose_select_star", "Sema.Compose.Compose_write_read",
+        "Sema.Compose.Compose_select_star", "Sema.Compose.Compose_write_read", "Sema.Compose.Compose_histOK_of_final",
     ],
     "trusted_base": [
         "SemaModel/Compose/Model.lean (the combined model: C01's point store + C02's indexes + C06's answer pipeline; new in it: the change stream of a batch, the index verdict, one write step for both, searchPoints) is tied to the code by a second correspondence run: the compiled combined model (`semadriver C02 compose`) answers every op line of the same histories — allocating the node ids itself, compared with the ones the shard allocated — plus `searchx` lines (select / sort / offset / limit through the whole SearchPoints pipeline); a stored top-level value is opaque text in the point store and is read by two parameters (Conv.idx, Conv.sel) — theorems hold for every such pair, the driver's pair is the value syntax of the op lines",
@@ -59,17 +59,23 @@ def run(ctx):
         res["stats"] = stats
         return res
     p = lambda *a: os.path.join(rundir, *a)
-    ok, err = r.run_driver("C02", p("ops.txt"), p("model.txt"))
+    have_compose = os.path.exists(p("compose", "ops.txt"))
+    # the two model runs are independent: run them side by side
+    from concurrent.futures import ThreadPoolExecutor
+    with ThreadPoolExecutor(max_workers=2) as ex:
+        f1 = ex.submit(r.run_driver, "C02", p("ops.txt"), p("model.txt"))
+        f2 = ex.submit(r.run_driver, "C02", p("compose", "ops.txt"), p("compose", "model.txt"), ("compose",)) if have_compose else None
+        ok, err = f1.result()
+        ok2, err2 = f2.result() if f2 else (False, "")
     if not ok:
         res["broken"].append(("driver-run", "semadriver C02", err[-2000:]))
     else:
         dis, n = r.diff_lines(p("ops.txt"), p("impl.txt"), p("model.txt"))
         res["disagreements"] += dis
         res["compared"] += n
-    if os.path.exists(p("compose", "ops.txt")):
-        ok, err = r.run_driver("C02", p("compose", "ops.txt"), p("compose", "model.txt"), extra_args=("compose",))
-        if not ok:
-            res["broken"].append(("driver-run", "semadriver C02 compose", err[-2000:]))
+    if have_compose:
+        if not ok2:
+            res["broken"].append(("driver-run", "semadriver C02 compose", err2[-2000:]))
         else:
             dis, n = r.diff_lines(p("compose", "ops.txt"), p("compose", "impl.txt"), p("compose", "model.txt"))
             for d in dis:
